@@ -181,10 +181,11 @@ fn apply_dup(dc: &DupCase, req: &mut WireRequest, signed: bool) {
             if !signed {
                 return; // the Authorization header exists only after signing
             }
+            let empty = dc.decoy_delta_s % 3 == 0;
             let extra = match dc.kind {
-                InnerCredential => format!("Credential={}", decoy_cred),
-                InnerSignedHeaders => "SignedHeaders=host;x-decoy".to_string(),
-                _ => format!("Signature={}", "e".repeat(64)),
+                InnerCredential => format!("Credential={}", if empty { String::new() } else { decoy_cred.clone() }),
+                InnerSignedHeaders => format!("SignedHeaders={}", if empty { "" } else { "host;x-decoy" }),
+                _ => format!("Signature={}", if empty { String::new() } else { "e".repeat(64) }),
             };
             for (n, v) in req.headers.iter_mut() {
                 if n.eq_ignore_ascii_case("authorization") {
@@ -220,7 +221,8 @@ fn apply_dup(dc: &DupCase, req: &mut WireRequest, signed: bool) {
     }
 }
 
-pub fn check_dup(dc: &DupCase, cc: &mut CaseCtx) -> CheckResult {
+/// The final request of a duplicate case (None when the plan cannot be signed).
+pub fn build_case(dc: &DupCase) -> Option<Case> {
     use DupKind::*;
     let p = &dc.plan;
     let mut base = p.base();
@@ -232,8 +234,7 @@ pub fn check_dup(dc: &DupCase, cc: &mut CaseCtx) -> CheckResult {
         apply_dup(dc, &mut base, false);
     }
     let Ok(signed) = sign(&base, &p.cfg, &p.spec) else {
-        cc.class("unsignable");
-        return Ok(());
+        return None;
     };
     let mut req = signed.req;
     if pre {
@@ -255,7 +256,18 @@ pub fn check_dup(dc: &DupCase, cc: &mut CaseCtx) -> CheckResult {
     } else {
         apply_dup(dc, &mut req, true);
     }
-    let case = Case { req, cfg: p.cfg.clone(), prov: p.provider() };
+    Some(Case { req, cfg: p.cfg.clone(), prov: p.provider() })
+}
+
+pub fn check_dup(dc: &DupCase, cc: &mut CaseCtx) -> CheckResult {
+    use DupKind::*;
+    let p = &dc.plan;
+    let inner = matches!(dc.kind, InnerCredential | InnerSignedHeaders | InnerSignature);
+    let pre = dc.before_signing && !inner;
+    let Some(case) = build_case(dc) else {
+        cc.class("unsignable");
+        return Ok(());
+    };
     let a = analyze(&case);
     let o = exec::run(&case);
     if let exec::Res::Unrepresentable(_) = o.res {
